@@ -27,7 +27,7 @@ PROPS = {
                        '[lo+min(n,i*c), lo+min(n,(i+1)*c)) without panicking for all bounds incl. reversed and near-limit ones, and a pure '
                        'lemma that these chunks are a disjoint cover of the range.',
         'assumptions': [
-            'CsvSource (byte-range alignment interleaved with csv::Reader construction) and IteratorSource are not under contract',
+            'the csv::Reader built over the byte range and quoted record terminators are not under contract',
         ],
     },
     'C02': {
@@ -59,6 +59,7 @@ PROPS = {
                        'Terminate to every sender but the feedback edge; NextStrategy::index returns 0 / keyer(m) / any per connection kind.',
         'assumptions': [
             'builder wiring (which strategy a Stream method passes) is read, not verified',
+            'the sort of the senders by endpoint (glidesort / sort_unstable_by_key) is a permutation stub; that every producer sees the same endpoint set is the scheduler\'s business',
         ],
     },
     'C09': {
@@ -113,7 +114,7 @@ PROPS = {
         'explanation': 'Verus proof of the per-call contract of Start::next (any number of upstream replicas, any batches): FlushAndRestart is returned exactly when every '
                        'upstream FlushAndRestart of the iteration was consumed (and the per-iteration state restarts), Terminate exactly when every upstream Terminate was consumed, '
                        'and then forever; only control elements are absorbed. Stateful operators (folds, joins, windows, reorder, zip) are added as further units.',
-        'assumptions': ['termination of next() (it blocks on the network) is not verified', 'Replay/Iterate/IterationLeader as grammar transducers are not covered'],
+        'assumptions': ['termination of next() (it blocks on the network) is not verified', 'Replay/Iterate/IterationLeader as grammar transducers are not covered (their logic is under C10); RichMap, keyed and interval joins are not covered'],
     },
     'C16': {
         'level': 'proof',
@@ -129,7 +130,7 @@ PROPS = {
             {'engine': 'verus', 'name': 'flat_map', 'tier': 'quick', 'role': "FlatMap::next: the items of an input element leave one per call in order, stamped with that element's timestamp; the next input is pulled only when the iterator is exhausted, so control elements (Watermark) leave unchanged and only after every derived item"},
         ],
         'explanation': 'order preservation along a single-replica path: Batcher view equation (Verus), Start::next stream equation (nothing lost, duplicated or reordered between link and chain), End::next appends in arrival order.',
-        'assumptions': ['reorder() and sinks/sources: see unit list'],
+        'assumptions': ['Collect::next (iter::from_fn over a closure capturing &mut self.prev) is not under contract'],
     },
     'C17': {
         'level': 'proof',
@@ -159,7 +160,7 @@ PROPS = {
             {'engine': 'verus', 'name': 'flat_map', 'tier': 'quick', 'role': "FlatMap::next: the items of an input element leave one per call in order, stamped with that element's timestamp; the next input is pulled only when the iterator is exhausted, so control elements (Watermark) leave unchanged and only after every derived item"},
         ],
         'explanation': 'per-operator watermark contracts proved on the real next() functions (Verus, unbounded) plus the frontier / event-time window contracts (Kani single-call harnesses, bounded state size).',
-        'assumptions': ['W_in: the operator input respects the watermark contract', 'Fold/KeyedFold/FlatMap/AddTimestamp/WindowOperator wiring: see unit list'],
+        'assumptions': ['W_in: the operator input respects the watermark contract (at sources: the user\'s watermark generator)', 'joins and RichMap are not under a watermark contract'],
     },
     'C13': {
         'level': 'proof',
@@ -247,8 +248,8 @@ PROPS = {
                        'has not ended; its key is recorded iff the other side is outer) and side_ended (every element the other side stored under a key the ending side never saw is emitted once padded with '
                        'None, in an arbitrary key order; the other side\'s store is emptied). lemma_inner_history proves over the abstract machine defined by these two relations that for EVERY '
                        'interleaving of the two sides and of their end markers the matched pairs emitted under each key are exactly the relational join (each pair once). '
-                       'NOT decided: JoinLocalHash::next (which flags and pair constructors it passes; its asserts at FlushAndRestart), the exact multiset of None-padded tuples over a whole history, '
-                       'sort-merge join, keyed-stream join, interval join, ship strategies (same key hash on both sides).',
-        'assumptions': ['HashMap/HashSet by their map/set views; drain order arbitrary', 'JoinLocalHash::next, JoinLocalSortMerge, keyed_join, IntervalJoin, ship.rs: not under contract', 'correspondence between the add_item/side_ended contracts and the abstract machine js_step/js_out: same clauses (refinement lemmas for the emitted tuples; the stored-state clauses are syntactically the same expressions)'],
+                       'JoinLocalHash::next is under contract too (dispatch with the flags of the variant, asserts at FlushAndRestart). Sort-merge join: only the iteration protocol around the merge (unit sort_merge); '
+                       'NOT decided: the exact multiset of None-padded tuples over a whole history, the merge loop of the sort-merge join (assumed), keyed-stream join, interval join, ship strategies (same key hash on both sides).',
+        'assumptions': ['HashMap/HashSet by their map/set views; drain order arbitrary', 'JoinLocalSortMerge::advance (the merge loop) is used through an ASSUMED contract pinned to its body hash; keyed_join, IntervalJoin, ship.rs: not under contract', 'correspondence between the add_item/side_ended contracts and the abstract machine js_step/js_out: same clauses (refinement lemmas for the emitted tuples; the stored-state clauses are syntactically the same expressions)'],
     },
 }
